@@ -206,7 +206,7 @@ def rule_scaler(ctx: Ctx) -> List[Ob]:
         def raw_grad(v):
             if isinstance(v, ast.IfExp):
                 return raw_grad(v.body) and raw_grad(v.orelse)
-            return v is not None and src(v) in (f"{mm.sf}.grad({mm.x})", "checkpoint.jac")
+            return v is not None and (src(v) in (f"{mm.sf}.grad({mm.x})", "checkpoint.jac") or src(uncopy(v)) == "checkpoint.jac")
         gok = bool(gd) and all(raw_grad(v) for _, v in gd)
         obs.append(ob("SCALER", "called with (clipped start point, unscaled gradient, lb, ub)", mm.f, c, oka and xok and gok,
                       f"arguments {args}; x <- {xd}; grad <- {[short(v) for _, v in gd]}",
